@@ -341,3 +341,30 @@ theorem C05_free_lineage_step (html : Bool) (s s' : DC) (x : Xml) (hs : s.lineag
   exact ⟨p, hp, by rw [hl]; exact hs⟩
 
 end D2P
+
+namespace D2P
+
+/-- **C05 over a whole body**: walk ANY list of elements `pre` (paragraphs, tables — nested to any
+depth, merged in any way —, content controls, anything), then a paragraph that is not in a cell and
+encloses no other paragraph.  If the register's table slot was clear before `pre`, the record of
+that paragraph does not say "tbl": a paragraph outside every table never reports a table lineage,
+whatever tables precede it. -/
+theorem C05_free_lineage_body (cfg : PartCfg) (num : Dict Str (List NumAttr)) (pre : List Xml)
+    (i : Nat) (p : Option Str) (t : QName) (m : NsMap) (a : List (QName × Str)) (tx tl : Option Str) (ks : List Xml)
+    (hx : (Xml.elem i p t m a tx tl ks).ptag = paragraphTag) (hk : flatInlineL ks = true)
+    (s s1 s' : DC) (hl : 1 < s.lineage.length) (hs : s.lineage[1]? = some none)
+    (h1 : walkL cfg num false s pre = .ok s1) (h2 : walk cfg num false s1 (.elem i p t m a tx tl ks) = .ok s') :
+    ∃ par, leafParsL s'.root = leafParsL s1.root ++ [par] ∧ par.elem = some i ∧ par.lineage[1]? = some none := by
+  -- after `pre` the table slot is what it was, or cleared: clear in both cases
+  obtain ⟨hlen, hrel⟩ := walkL_slot1 cfg num pre false s s1 hl h1
+  have hs1 : s1.lineage[1]? = some none := by
+    rcases hrel with h | h
+    · rw [h]; exact hs
+    · exact h
+  obtain ⟨par, _, _, e1, _, _, _, e5, _, _, _, _, _, _, hfree⟩ := walk_paragraph cfg num false s1 s' i p t m a tx tl ks hx hk h2
+  obtain ⟨sa, sb, ha, hb, hlin⟩ := hfree rfl
+  have ka := setCaret_slot 1 s1 sa (some 4) _ (by simp) ha
+  have kb := setCaret_slot 1 sa sb (some 4) _ (by simp) hb
+  exact ⟨par, e1, e5, by rw [hlin, kb.1, ka.1]; exact hs1⟩
+
+end D2P
